@@ -165,7 +165,7 @@ def fold_str_names(mod: Module, parts: T.List[ast.AST]) -> T.List[ast.AST]:
 def const_str(mod: Module, e: ast.AST) -> T.Optional[str]:
     if isinstance(e, ast.Constant) and isinstance(e.value, str):
         return e.value
-    if isinstance(e, (ast.Name, ast.Attribute)):
+    if isinstance(e, (ast.Name, ast.Attribute, ast.BinOp, ast.JoinedStr)):
         try:
             v = fold_expr(mod.repo, mod, e)
         except Exception:
@@ -363,8 +363,36 @@ def lexer_line_model(ctx: RuleCtx) -> T.Tuple[T.Set[str], int, int, T.List[str]]
         if len(rb) != 1:
             raise Undecided(f'Lexer.lex: the line start is not re-based exactly once next to `{norm(inc)}`')
         coef, const = linear(rb[0].value)
+        cf = _count_form(guard, inc)
         if isinstance(inc.value, ast.Constant):
             want_c, want_k, why = {posv: 1}, 0, 'the token ends with its terminator'
+        elif cf is not None:
+            # second spelling: <token start> + <what was cut off the front of the text> + <text>.rfind(<terminator>) + 1
+            spans = [n.value for n in walk_no_nested(fn) if isinstance(n, ast.Assign) and len(n.targets) == 1 and isinstance(n.value, ast.Tuple) and len(n.value.elts) == 2
+                     and norm(n.value.elts[1]) == posv and isinstance(n.value.elts[0], ast.Name)]
+            if len(spans) != 1:
+                raise Undecided('Lexer.lex: the start position of the token (first element of its span) was not found')
+            tokstart = spans[0].elts[0].id
+            textv, termc = cf
+            strips = [x for b_ in guard.body for x in ast.walk(b_) if isinstance(x, ast.Assign) and len(x.targets) == 1 and isinstance(x.value, ast.Subscript)
+                      and norm(x.value.value) == norm(x.targets[0]) == textv and isinstance(x.value.slice, ast.Slice)]
+            if len(strips) > 1:
+                raise Undecided(f'Lexer.lex: `{textv}` is cut more than once')
+            want_c = {tokstart: 1, f'{textv}.rfind({termc!r})': 1}
+            want_k = 1
+            front = 'nothing'
+            if strips and (strips[0].lineno, strips[0].col_offset) < (rb[0].lineno, rb[0].col_offset) and strips[0].value.slice.lower is not None:  # type: ignore[union-attr]
+                fc, fk = linear(strips[0].value.slice.lower)  # type: ignore[union-attr]
+                for k_, v_ in fc.items():
+                    want_c[k_] = want_c.get(k_, 0) + v_
+                want_k += fk
+                front = norm(strips[0].value.slice.lower)  # type: ignore[union-attr]
+            why = f'the new line starts right behind the last {termc!r} of the token text, which begins at {tokstart} (+ {front} cut off its front)'
+            want_k = -want_k       # reported below as `- k`; compared as +k
+            ctx.require(coef == want_c and const == -want_k, f'Lexer.lex: next to `{norm(inc)}` the line start becomes {norm(rb[0].value)}', mod, 'Lexer.lex', rb[0],
+                        f'`{norm(rb[0])}` next to `{norm(inc)}`: {why}, so the line start must be ' + ' + '.join(want_c) + f' + {-want_k}'
+                        + ': columns of the tokens that follow on that line are shifted, the rewriter splices at the wrong offset', rb[0])
+            continue
         else:
             lin, _k = linear(inc.value)
             nm = next(iter(lin))[4:-1]           # len(<lines>) - 1
@@ -387,6 +415,20 @@ def lexer_line_model(ctx: RuleCtx) -> T.Tuple[T.Set[str], int, int, T.List[str]]
                     + ' '.join(f'{"+" if v > 0 else "-"} {k}' for k, v in want_c.items()).lstrip('+ ') + (f' - {-want_k}' if want_k else '')
                     + ': columns of the tokens that follow on that line are shifted, the rewriter splices at the wrong offset', rb[0])
     return sets, first_line, first_col, evidence
+
+
+def _count_form(guard: ast.If, inc: ast.AugAssign) -> T.Optional[T.Tuple[str, str]]:
+    """(text variable, terminator) when the line counter moves by `<text>.count(<terminator>)` (directly or through an arm-local name)."""
+    v: ast.AST = inc.value
+    if isinstance(v, ast.Name):
+        ds = [n.value for b in guard.body for n in ast.walk(b) if isinstance(n, ast.Assign) and len(n.targets) == 1 and norm(n.targets[0]) == v.id]
+        if len(ds) != 1:
+            return None
+        v = ds[0]
+    if isinstance(v, ast.Call) and isinstance(v.func, ast.Attribute) and v.func.attr == 'count' and isinstance(v.func.value, ast.Name) \
+            and len(v.args) == 1 and isinstance(v.args[0], ast.Constant) and isinstance(v.args[0].value, str):
+        return v.func.value.id, v.args[0].value
+    return None
 
 
 def _trigger_chars(ctx: RuleCtx, mod: Module, fn: ast.AST, guard: ast.If, inc: ast.AugAssign) -> T.Set[str]:
@@ -423,6 +465,10 @@ def _trigger_chars(ctx: RuleCtx, mod: Module, fn: ast.AST, guard: ast.If, inc: a
             if _items_can_match(inner, ch, bool(r.flags & 16)):
                 raise Undecided(f'token {tid}: may contain {ch!r} more than once but the line counter moves by one')
             out.add(ch)
+            continue
+        cf = _count_form(guard, inc)
+        if cf is not None:
+            out.add(cf[1])               # one line per occurrence of the terminator in the token text
             continue
         lin, const = linear(inc.value)
         if const == -1 and len(lin) == 1 and next(iter(lin.values())) == 1 and next(iter(lin)).startswith('len('):
